@@ -657,11 +657,14 @@ fn apply_mutations(
         .read(params.command_markers, &*client_entity);
 
     let Some(mut history) = client_entity.get_mut::<ConfirmHistory>() else {
-        return Err(format!(
-            "entity `{}` missing history component inserted on the first update message",
+        // The entity could be only reserved by a mapped component after a despawn from update message,
+        // so the received mutations are for its previous instance.
+        debug!(
+            "ignoring mutations received for `{}` without history",
             client_entity.id()
-        )
-        .into());
+        );
+        message.advance(data_size);
+        return Ok(());
     };
 
     let new_tick = message_tick > history.last_tick();
